@@ -366,6 +366,13 @@ def property_body(m):
     body = [s for s in m.node.body if not (isinstance(s, ast.Expr) and isinstance(s.value, ast.Constant))]
     if len(body) == 1 and isinstance(body[0], ast.Return) and body[0].value is not None:
         return body[0].value
+    # lazily cached form `if self.F is None: self.F = E` / `return self.F`: the value is E whenever the cache is
+    # coherent (rsa.memo.cache_coherence decides that separately, where a rule relies on the property)
+    from rsa.memo import lazy_cache
+
+    lc = lazy_cache(m)
+    if lc is not None:
+        return lc[1]
     return None
 
 
@@ -652,6 +659,10 @@ def returned_exprs(fi, max_paths=64):
                     vals = [S().visit(copy.deepcopy(v)) for v in st.value.elts]
                     for x, v in zip(tg.elts, vals):
                         env[x.id] = v
+                elif isinstance(tg, ast.Tuple) and isinstance(st.value, (ast.Name, ast.Attribute, ast.Subscript)) and all(isinstance(x, ast.Name) for x in tg.elts):
+                    base = S().visit(copy.deepcopy(st.value))
+                    for i, x in enumerate(tg.elts):
+                        env[x.id] = ast.Subscript(value=copy.deepcopy(base), slice=ast.Constant(value=i), ctx=ast.Load())
             elif node.kind == "stmt" and isinstance(st, ast.AugAssign) and isinstance(st.target, ast.Name):
                 cur = env.get(st.target.id, ast.Name(id=st.target.id, ctx=ast.Load()))
                 env[st.target.id] = ast.BinOp(left=copy.deepcopy(cur), op=st.op, right=S().visit(copy.deepcopy(st.value)))
@@ -738,6 +749,15 @@ def path_states(fi, max_paths=64, track_attrs=True):
                 tgs = st.targets if isinstance(st, ast.Assign) else [st.target]
                 if len(tgs) == 1 and key(tgs[0]) is not None:
                     env[key(tgs[0])] = S().visit(copy.deepcopy(st.value))
+                elif len(tgs) == 1 and isinstance(tgs[0], ast.Tuple) and all(key(x) is not None for x in tgs[0].elts):
+                    if isinstance(st.value, ast.Tuple) and len(st.value.elts) == len(tgs[0].elts):
+                        vals = [S().visit(copy.deepcopy(v)) for v in st.value.elts]
+                        for x, v in zip(tgs[0].elts, vals):
+                            env[key(x)] = v
+                    elif isinstance(st.value, (ast.Name, ast.Attribute, ast.Subscript)):
+                        base = S().visit(copy.deepcopy(st.value))
+                        for i, x in enumerate(tgs[0].elts):
+                            env[key(x)] = ast.Subscript(value=copy.deepcopy(base), slice=ast.Constant(value=i), ctx=ast.Load())
             elif node.kind == "stmt" and isinstance(st, ast.AugAssign) and key(st.target) is not None:
                 k = key(st.target)
                 cur = env.get(k, copy.deepcopy(st.target))
